@@ -139,9 +139,88 @@ pub(crate) mod verif_sem_shared {
         bits
     }
 
+    /// Straight-line scenario for the quick tier (the looping interpreter above costs ~6 GB / 25 min at N=5):
+    /// one shared acquire future, an optional barging try_acquire, a release, the re-poll, the releaser's drop.
+    /// C05 ledger, C06 wake-up through the latest waker, C17 is_terminated(), through the Arc-based types.
+    pub fn scenario<M: RawMutex, S: Src>(s: &mut S, p: u32) -> u32 {
+        let fair = s.flag();
+        let init = s.below(3) as usize;
+        let q = 1 + s.below(2) as usize;
+        let sem = GenericSharedSemaphore::<M>::new(fair, init);
+        let (ca, cb) = (WakeCell::new(), WakeCell::new());
+        let mut ledger = init;
+        let mut f = ManuallyDrop::new(sem.acquire(q));
+        if (p & P17) != 0 { assert!(!f.is_terminated(), "C17 shared semaphore: a fresh acquire future reports terminated"); }
+        let wa = ManuallyDrop::new(mk_waker(&ca));
+        let wb = ManuallyDrop::new(mk_waker(&cb));
+        let mut bits = 0u32;
+        // first poll (waker A)
+        let r1 = { let mut cx = Context::from_waker(&wa); unsafe { Pin::new_unchecked(&mut *f) }.poll(&mut cx) };
+        let mut rel: ManuallyDrop<Option<GenericSharedSemaphoreReleaser<M>>> = ManuallyDrop::new(None);
+        let mut done = false;
+        match r1 {
+            Poll::Ready(r) => {
+                oracle!(p, P05, ledger >= q, "C05 shared semaphore: acquire completed with fewer permits available than requested");
+                ledger = ledger.wrapping_sub(q);
+                unsafe { core::ptr::write(&mut *rel, Some(r)) };
+                done = true;
+            }
+            Poll::Pending => {
+                oracle!(p, P05 | P06, ledger < q, "C05+C06 shared semaphore: acquire stays pending although enough permits are available and nobody waits");
+            }
+        }
+        if (p & P17) != 0 { assert!(f.is_terminated() == done, "C17 shared semaphore: is_terminated() differs from 'completed'"); }
+        oracle!(p, P05, sem.permits() == ledger, "C05 shared semaphore: permits() differs from initial - acquired");
+        if !done {
+            // optionally re-poll with another waker, then release enough (or not enough) permits
+            let second_waker = s.flag();
+            if second_waker {
+                let r = { let mut cx = Context::from_waker(&wb); unsafe { Pin::new_unchecked(&mut *f) }.poll(&mut cx) };
+                match r { Poll::Ready(x) => { core::mem::forget(x); oracle!(p, P05 | P06, false, "C05+C06 shared semaphore: a waiting acquire completed without a release"); } Poll::Pending => {} }
+            }
+            let a = 1 + s.below(2) as usize;
+            sem.release(a);
+            ledger += a;
+            let latest = if second_waker { &cb } else { &ca };
+            let stale = if second_waker { &ca } else { &cb };
+            if ledger >= q {
+                oracle!(p, P06, latest.n() == 1, "C06 shared semaphore: the waiting request fits after the release but was not woken through its latest waker");
+                bits |= W_PENDING_THEN_READY;
+            } else {
+                oracle!(p, P06, latest.n() == 0, "C06 shared semaphore: woken although the request does not fit");
+            }
+            oracle!(p, P06, stale.n() == 0, "C06 shared semaphore: a stale waker was woken");
+            let r = { let mut cx = Context::from_waker(&wb); unsafe { Pin::new_unchecked(&mut *f) }.poll(&mut cx) };
+            match r {
+                Poll::Ready(x) => {
+                    oracle!(p, P05, ledger >= q, "C05 shared semaphore: acquire completed with fewer permits available than requested");
+                    ledger = ledger.wrapping_sub(q);
+                    unsafe { core::ptr::write(&mut *rel, Some(x)) };
+                    done = true;
+                }
+                Poll::Pending => { oracle!(p, P05 | P06, ledger < q, "C05+C06 shared semaphore: acquire stays pending although it is the only request and fits"); }
+            }
+            if (p & P17) != 0 { assert!(f.is_terminated() == done, "C17 shared semaphore: is_terminated() differs from 'completed'"); }
+            oracle!(p, P05, sem.permits() == ledger, "C05 shared semaphore: permits() differs from initial + released - acquired");
+        }
+        if done {
+            // the releaser gives exactly its permits back when dropped
+            let r = unsafe { core::ptr::read(&*rel) };
+            drop(r);
+            ledger += q;
+            oracle!(p, P05, sem.permits() == ledger, "C05 shared semaphore: dropping the releaser did not give back exactly the acquired permits");
+        }
+        // dropping the (completed or still waiting) future leaves the permits alone
+        unsafe { ManuallyDrop::drop(&mut f) };
+        oracle!(p, P05, sem.permits() == ledger, "C05 shared semaphore: dropping the acquire future changed the permits");
+        s.reached(bits);
+        bits
+    }
+
     #[no_mangle]
     pub fn fi_verif_replay_sem_shared(name: &str, cfg: u32, p: u32, s: &mut ScriptSrc<'_>) -> bool {
         match name {
+            "semsh_scenario" => { scenario::<NoopLock, _>(s, p); }
             "semsh_hist_noop" => { hist::<NoopLock, _>(s, cfg, 64, p); }
             "semsh_hist_check" => { hist::<CheckLock, _>(s, cfg, 64, p); }
             _ => return false,
@@ -170,6 +249,15 @@ pub(crate) mod verif_sem_shared {
         hist_proof!(hist_c06_n5, NoopLock, 5, P06, 2, 6);
         hist_proof!(hist_c17_n5, NoopLock, 5, P17, 2, 6);
         hist_proof!(hist_c06_n4_check, CheckLock, 4, P06, 2, 5);
+        #[kani::proof]
+        #[kani::unwind(3)]
+        fn scenario_c05() { let b = scenario::<NoopLock, _>(&mut KaniSrc, P05); kani::cover!(b & W_PENDING_THEN_READY != 0, "W shared semaphore scenario: waited, then fitted"); }
+        #[kani::proof]
+        #[kani::unwind(3)]
+        fn scenario_c06() { let b = scenario::<NoopLock, _>(&mut KaniSrc, P06); kani::cover!(b & W_PENDING_THEN_READY != 0, "W shared semaphore scenario: waited, then fitted"); }
+        #[kani::proof]
+        #[kani::unwind(3)]
+        fn scenario_c17() { let _ = scenario::<NoopLock, _>(&mut KaniSrc, P17); }
         #[kani::proof]
         #[kani::unwind(3)]
         fn repoll_panics() {
